@@ -128,6 +128,17 @@ def drive(sess, rnd, cfg, record):
         if emit(op):
             yield op
     if want_phases:
+        first = []
+        if R.chance(0.3):
+            # component configurations first, system phases afterwards (the
+            # order the project's own tests use)
+            for _ in range(R.randint(1, 3)):
+                first.append(g.op_comp_phases(sess.model))
+            if R.chance(0.3):
+                first.append(make_observe(g, sess.model, cfg))
+        for op in first:
+            if emit(op):
+                yield op
         op = g.op_sys_phases(sess.model)
         if emit(op):
             yield op
@@ -161,7 +172,10 @@ def drive(sess, rnd, cfg, record):
                 if e:
                     ops.append(make_observe(g, m, cfg))
             else:
-                ops = [R.wpick([(g.op_change, 3), (g.op_del, 2)])(m)]
+                ops = [R.wpick([(g.op_change, 3), (g.op_del, 2), (g.op_move, 1.5)])(m)]
+            if g.pending:
+                ops += g.pending
+                g.pending = []
         elif grp == "reject":
             classes = g.reject_classes(m)
             k = len(classes) if cfg.get("all_rejects") else R.randint(1, 4)
@@ -174,10 +188,12 @@ def drive(sess, rnd, cfg, record):
         elif grp == "phase":
             if not m.sys_phases or R.chance(0.15):
                 if m.sys_phases and R.chance(0.5):
-                    # clear component configurations first, then the system phases
-                    for n in [x for x in m.order if m.phase_conf[x]]:
-                        ops.append(g.op_comp_phases(m, name=n, clear=True))
+                    # clear component configurations first (mostly), then the system phases
+                    if R.chance(0.7):
+                        for n in [x for x in m.order if m.phase_conf[x]]:
+                            ops.append(g.op_comp_phases(m, name=n, clear=True))
                     ops.append(g.op_sys_phases(m, clear=True))
+                    ops.append(make_observe(g, m, cfg))
                 else:
                     ops.append(g.op_sys_phases(m))
             else:
